@@ -112,6 +112,46 @@ let handle fields impl : string option * string list =
     (* Util.run compares observables literally except for error classes: a panic message is informative only *)
     let model = if model = "panic" && starts impl "panic" then impl else model in
     (Some model, !fails)
+  (* ---- histories on ONE validator: the provider's cache is state (Model: validate_step / run_history) ---- *)
+  | ["history"; consts; mode; k0; truth_list; events] ->
+    if consts <> consts_field () then (Some "driver: compiled constants differ from K_header.v", []) else
+    let tl = List.map b (Util.items_of_string truth_list) in
+    let rec take k l = if k = 0 then [] else match l with [] -> [] | x :: t -> x :: take (k - 1) t in
+    let evs = List.map (fun e ->
+      match String.split_on_char '~' e with
+      | [number; _hdr; hash; proof; oracle; truth] ->
+        let o = if mode = "nil" then None
+                else if oracle = "err" then Some (Err (n_ 8))
+                else Some (Ok (take (int_of_string oracle) tl)) in
+        ((((o, n_of_dec number), b (Util.bytes_of_hex hash)), b (Util.bytes_of_hex proof)), truth)
+      | _ -> failwith "event") (String.split_on_char ';' events) in
+    let res = run_history_sha true [] [] (take (int_of_string k0) tl) (List.map fst evs) in
+    let index_of (r : byte list) =
+      let rec go i = function [] -> "?" | t :: rest -> if ub t = ub r then string_of_int i else go (i + 1) rest in go 0 tl in
+    let tok = function Ok _ -> "ok" | Err _ -> "e" | Panic -> "p" in
+    let cache_str c = match c with [] -> "-" | _ -> String.concat "." (List.map index_of c) in
+    let model = "ok " ^ String.concat "," (List.map (fun (v, _) -> tok v) res) ^ " " ^ String.concat "/" (List.map (fun (_, c) -> cache_str c) res) in
+    (* per-step monitors on the IMPLEMENTATION's verdicts and caches.  C03_history_cache_is_true_prefix: with oracle answers that
+       are prefixes of one true list the cache is, after every call, a prefix of that list; C03_history_accept_*: an accepted
+       proof proves the leaf at the position fixed by its claimed slot in the TRUE summary of that index - so the model verdict
+       is the specification at every step *)
+    let fails = ref [] in
+    (match String.split_on_char ' ' impl with
+     | ["ok"; iv; ic] ->
+       let iv = String.split_on_char ',' iv and ic = String.split_on_char '/' ic in
+       List.iteri (fun i (((_, truth), (mv, _)), (v, cs)) ->
+         let step = Printf.sprintf " step=%d truth=%s impl=%s spec=%s cache=%s" (i + 1) truth v (tok mv) cs in
+         if v = "ok" && mv <> Ok () then
+           fails := ((if starts truth "wrongslot" then "accepted-wrong-slot" else if truth = "corrupt" then "accepted-corrupted-sibling"
+                      else "accepted-forged-proof") ^ step) :: !fails;
+         if truth = "honest" && v <> "ok" then fails := ("rejected-honest-proof" ^ step) :: !fails;
+         if v = "p" then fails := ("validator-panics-other" ^ step) :: !fails;
+         (* the cache must be the first k true summaries, in order *)
+         let ids = if cs = "-" then [] else String.split_on_char '.' cs in
+         if List.mapi (fun j _ -> string_of_int j) ids <> ids then fails := ("summaries-cache-misaligned" ^ step) :: !fails)
+         (List.combine (List.combine evs res) (List.combine iv ic))
+     | _ -> fails := ["history-observable-malformed " ^ impl]);
+    (Some model, List.rev !fails)
   (* ---- the prover: real NewAccumulator/Update/Finish + BuildProof vs Model/HeaderProver.v ---- *)
   | ["prover"; consts; chain; idx] ->
     if consts <> consts_field () then (Some "driver: compiled constants differ from K_header.v", []) else
